@@ -51,6 +51,11 @@ CHECKS["C15"] = ("exploration",
          "4.C15", "generated grammars (seeded proptest choice streams) x set oracle computed from the harness's own reference resolver + metamorphic oracle (unreferenced definitions removed)",
          "trusted: reference resolver (model.rs), printer marks, stderr reader")
 
+CHECKS["C16"] = ("exploration",
+         "Generated grammars with quotes, backslashes and braces in literals, descriptions and commands and several within-word automata x 4 shells: both dumps are parsed with the harness's own DOT reader; the --dfa graph is compared structurally with the library's minimised automaton (node set with base, shapes, labelled edges in bijection with transitions, one cluster per within-word automaton, exact set of dashed entry/exit edges), the --regex graph must contain every expected item as an exactly labelled node; the binary's files equal the library's dumps.",
+         "4.C16", "generated grammars (seeded proptest choice streams) x validity + structural-equality oracle through an independent DOT reader",
+         "graphviz is not installed: the DOT reader (written from the DOT grammar and graphviz's scanner rules) is trusted")
+
 NOT_YET = {
 }
 
